@@ -669,9 +669,9 @@ class Array(Sequence):
                 remainder = key[m.end() :] or None
                 if child_name and not remainder:
                     continue
-                elif remainder and not child_name:
+                elif remainder != child_name:
                     continue
-                elif prune and value == "" and remainder == child_name:
+                elif prune and value == "":
                     continue
                 member = self.member_schema.from_flat([(remainder, value)])
                 self.append(member)
